@@ -30,6 +30,7 @@ import (
 	"github.com/jech/storrent/protocol"
 	"github.com/jech/storrent/tor/piece"
 	"github.com/jech/storrent/tracker"
+	"github.com/jech/storrent/verifhook"
 	"github.com/jech/storrent/webseed"
 )
 
@@ -134,6 +135,7 @@ func (t *Torrent) announce(ipv6 bool) {
 		prot = "IPv6"
 	}
 	t.Log.Printf("Starting %v announce for %v\n", prot, t.Hash)
+	verifhook.Announce(t.Hash, ipv6, port)
 	dht.Announce(t.Hash, ipv6, port)
 	t.announceTime = time.Now()
 }
@@ -1793,6 +1795,7 @@ func Expire() int {
 		return 0
 	}
 
+	verifhook.Point("tor.expire.sampled")
 	count := count()
 	fair := low / int64(count)
 
@@ -1808,6 +1811,7 @@ func Expire() int {
 		return true
 	})
 
+	verifhook.Point("tor.expire.walked")
 	fair2 := (low - smallspace) / int64(bigcount)
 
 	Range(func(h hash.Hash, t *Torrent) bool {
